@@ -66,3 +66,15 @@ claim('C11',
       "Bounded symbolic model checking of the real marker criteria kernels with everything symbolic: Holm correction (equal to the textbook step-down formula, and the restricted variant decides 'below threshold' identically) for 1-3 (4) p-values; exact and approximate penetrance tests (soundness w.r.t. the floors, completeness w.r.t. the strict thresholds, exactness) with all six thresholds, penetrances, fold changes and n_valid symbolic; the Welch statistic / Welch-Satterthwaite identity (NRA); the p-value-mask validity rule; score_differential_genes with arbitrary corrected p-values (cluster-size rule, validity = p AND penetrance, direction, pair swap).",
       "the numerical value of the Student-t / normal CDF (scipy) and the boring_t / big_nu short-cuts are outside; float16 storage of the mask is modelled as 'exactly -1 or >= resolution'; assembly of the pair-major / gene-major tables is not in the quick tier",
       "DESIGN.md §4 C11")
+claim('C12',
+      "Bounded exhaustive exploration with the solver as enumerator: the real per-parent selection (worker entry point -> select_marker_genes_v2 -> _run_selection and helpers) on an in-memory MarkerGeneArray for every marker table (each gene x leaf pair none/up/down), every query gene subset, every target in the bounds and every parent of a two-level taxonomy; the coverage guarantee, absence of duplicates, membership in the query and relevance of every selected gene are evaluated against a census computed by the harness from the table bits.",
+      "every input dimension is concrete on each path (tables of bits) - no arithmetic stays symbolic; genes_at_a_time fixed at its default 1 (the property does not quantify over it); select_all_markers scheduling not covered",
+      "DESIGN.md §4 C12")
+claim('C16',
+      "Bounded symbolic model checking of rounding + integer-type choice on the h5 model (symbolic values incl. narrow windows around 255.5, 65535.5, -128.5, 0: every value moves by <= 1/2 to an integer the chosen type can hold, integer-valued input untouched; stores into integer datasets carry 'fits the declared type' obligations); exhaustive exploration of identifier mapping over 12 kinds of names; z3 string-theory lemmas on the live Ensembl pattern; and the whole validate_h5ad on real anndata files for every mix of gene-name kinds / encodings / layer / rounding flag / value class (input digest unchanged, same cells/genes/order, X equal to the layer or rounded, recorded mapping and count, rejection classes, no-change => no file).",
+      "the code's 1e-10 'is an integer' tolerance is part of the oracle; floats as reals in the symbolic harness (np.round half-to-even modelled exactly on reals); uns/obsm preservation by anndata is not claimed",
+      "DESIGN.md §4 C16")
+claim('C18',
+      "Bounded symbolic model checking of the kernel fact (a query equal to leaf k's profile gets every vote with correlation 1 through the real correlation kernel and tally_votes, for symbolic profiles, under the property's own precondition; NRA with lemmas 'corr(k,k)=1' and 'corr<=1' discharged on the kernel's output), of get_leaf_means through the file's own cluster/gene tables (every row and gene order, symbolic tables), and exploration of the real run_mapping on real files with a centroid query for every gene order / bootstrap factor / seed / worker count in the bounds.",
+      "floats as reals for the kernel fact; single-gene subsets outside (every row is constant there); upstream stages (statistics, reference markers, selection) are not chained in this check - their outputs are covered in C09/C11/C12",
+      "DESIGN.md §4 C18")
